@@ -479,11 +479,29 @@ def gmres_cases(tier):
                 cases.append({"id": f"{name}/{rn}/x0={xn}", "mat": name, "A": A, "b": b, "x0": x, "kdim": kd, "n": n,
                               "complex": cplx or not is_real_mat(b), "normal": is_normal(A), "peak": peak,
                               "mirror": per_m, "rho2_0": rho0, "x0name": xn, "hom": False})
+        # warm starts that are WIDER than the right-hand side (replayed with mixed dtypes only, harness/props/c13.py):
+        #   complex operator, real right-hand side, complex guess (1+i) e1;
+        #   real operator, b = 2 * gen, x0 = e1: replayed as b / 2 (integer dtype) with the half-integer guess e1 / 2
+        if cplx:
+            extra = ("ones", [1] * n, "ci", [1 + I] + [0] * (n - 1), "complex_guess")
+        else:
+            extra = ("gen2", [2 * t for t in [1, 2, -1, 1][:n]], "e1", [1] + [0] * (n - 1), "half_guess")
+        rn, v, xn, x0, kind = extra
+        b, x = col(v), col(x0)
+        res, peak = peak_of(gmres_case_mirror, A, b, x)
+        if res is None:
+            dropped += 1
+        else:
+            kd, rho0, per_m = res
+            cases.append({"id": f"{name}/{rn}/x0={xn}", "mat": name, "A": A, "b": b, "x0": x, "kdim": kd, "n": n,
+                          "complex": cplx, "normal": is_normal(A), "peak": peak, "mirror": per_m, "rho2_0": rho0,
+                          "x0name": xn, "hom": False, "mixed": kind})
     # homogeneity / shift invariance is checked by TLC (ScaleShift) on the cases that are replayed with scaled right-hand
     # sides: per matrix the lowest Krylov dimension (x0 = 0) and the last right-hand side of the largest one (both guesses)
     by_mat = {}
     for c in cases:
-        by_mat.setdefault(c["mat"], []).append(c)
+        if not c.get("mixed"):
+            by_mat.setdefault(c["mat"], []).append(c)
     for group in by_mat.values():
         top = max(c["kdim"] for c in group)
         zero = [c for c in group if c["x0name"] == "0" and c["kdim"] >= 1]
@@ -562,6 +580,9 @@ WIDE_TEMPLATES = {
     "diag4": lambda s: [[1, 0, 0, 0], [0, 2, 0, 0], [0, 0, 5, 0], [0, 0, 0, s]],
     "bidiag4": lambda s: [[s, 1, 0, 0], [0, 2, 1, 0], [0, 0, 1, 1], [0, 0, 0, 3]],
     "comp4": lambda s: [[0, 0, 0, s], [1, 0, 0, 1], [0, 1, 0, 0], [0, 0, 1, 1]],
+    # symmetric (definite / indefinite): also replayed as DECLARED operators (cola.SelfAdjoint / cola.PSD)
+    "sym3": lambda s: [[1, 1, 0], [1, 2, 1], [0, 1, s]],
+    "symi3": lambda s: [[1, 1, 0], [1, -2, 1], [0, 1, s]],
 }
 WIDE_SCALES = {"1e2": 10**2, "1e3": 10**3, "1e4": 10**4, "1e5": 10**5, "1e6": 10**6, "1e7": 10**7,
                "2^7": 2**7, "2^10": 2**10, "2^13": 2**13, "2^17": 2**17, "2^20": 2**20, "2^23": 2**23}
@@ -592,6 +613,35 @@ def gmres_wide_cases(tier):
                                   "A": M(rows), "b": col(bv), "x0": col(x0), "kdim": kd, "n": n, "complex": False,
                                   "normal": is_normal_int(rows), "wide": True, "mirror": per_m, "rho2_0": (rho0, 1),
                                   "x0name": xn})
+    return cases + gmres_warm32_cases()
+
+
+WARM32 = {
+    "gen2": [[2, 1], [1, 3]], "gen3": [[2, 1, 0], [0, 3, 1], [1, 0, 1]], "tri3": [[2, 1, 0], [0, 3, 1], [0, 0, 1]],
+    "bidiag4": [[1, 1, 0, 0], [0, 2, 1, 0], [0, 0, 1, 1], [0, 0, 0, 2]],
+}
+
+
+def gmres_warm32_cases():
+    """Well conditioned integer systems whose warm start needs 26 bits (x0[0] = 2^25 + 1: a float64 but not a float32)
+    while every entry of b is a float32 (b = A x0 rounded to 24 bits, moved by one unit in the last place): the initial
+    residual is O(1), so a guess rounded to float32 changes it completely.  Evaluated by TLC with wide integers."""
+    cases = []
+    for name, rows in WARM32.items():
+        n = len(rows)
+        x0 = [2**25 + 1] + [3, -2, 1][:n - 1]
+        ax = [sum(rows[i][k] * x0[k] for k in range(n)) for i in range(n)]
+        g = [1, -1, 1, 0][:n]
+        bv = []
+        for i, t in enumerate(ax):
+            f = np.float32(t)
+            bv.append(int(f) + g[i] * max(1, int(np.spacing(f))))
+            assert int(np.float32(bv[-1])) == bv[-1]
+        kd, rho0, per_m = wide_case_mirror(rows, bv, x0)
+        cases.append({"id": f"warm32:{name}/x0=2^25+1", "mat": f"warm32:{name}", "template": "warm32", "scale": "2^25",
+                      "A": M(rows), "b": col(bv), "x0": col(x0), "kdim": kd, "n": n, "complex": False,
+                      "normal": is_normal_int(rows), "wide": True, "mirror": per_m, "rho2_0": (rho0, 1), "x0name": "big",
+                      "warm": True})
     return cases
 
 
